@@ -643,6 +643,13 @@ def _nd_diff(a, b, memo, path):
                 break
         if first is None:
             return None
+        if a.ndim == 0:
+            same_str = False
+            try:
+                same_str = str(a.item()) == str(b.item())
+            except Exception:  # noqa: BLE001
+                pass
+            return ("0-d-object-array:" + ("elements-with-equal-str" if same_str else "different-element"), path)
         la, lb = list(a.flat), list(b.flat)
         if all(type(x) is str for x in la) and all(type(x) is str for x in lb) and "-".join(la) == "-".join(lb):
             return ("object-array:joined-strings-coincide", path)
@@ -684,14 +691,28 @@ def _ea_diff(a, b, memo, path):
     if isinstance(a.dtype, pd.StringDtype) and all(c[0] == "str" for c in ca + cb) \
             and "-".join(c[1] for c in ca) == "-".join(c[1] for c in cb):
         return ("object-array:joined-strings-coincide", path)
+    if _fam(a.dtype) == "Int" and bool(a.isna().any() or b.isna().any()) \
+            and [c if len(c) == 1 else float(c[1]) for c in ca] == [c if len(c) == 1 else float(c[1]) for c in cb]:
+        return ("extension-array:different-values&equal-as-float64&has-NA", path)
     return ("extension-array:different-values", path)
+
+
+_GENERIC_EA = ("IntegerArray", "FloatingArray", "BooleanArray", "StringArray", "NumpyExtensionArray")
+
+
+def _type_label(x, y):
+    """Type difference; the pandas extension arrays without a normalizer of
+    their own (dask tokenizes them as np.asarray(arr)) are one class of input."""
+    names = sorted(("generic-extension-array" if _tn(o) in _GENERIC_EA and (type(o).__module__ or "").startswith("pandas") else _tn(o))
+                   for o in (x, y))
+    return "type:" + "-vs-".join(names)
 
 
 def _arr_diff(x, y, memo, path):
     import numpy as np
 
     if type(x) is not type(y):
-        return ("type:" + "-vs-".join(sorted((_tn(x), _tn(y)))), path)
+        return (_type_label(x, y), path)
     if isinstance(x, np.ndarray):
         return _nd_diff(x, y, memo, path)
     return _ea_diff(x, y, memo, path)
@@ -800,7 +821,7 @@ def diff(a, b, memo=None, path=""):
         memo = set()
     ta = type(a)
     if ta is not type(b):
-        return ("type:" + "-vs-".join(sorted((_tn(a), _tn(b)))), path)
+        return (_type_label(a, b), path)
     if a is None or a is b and ta in (bool, int, str, bytes):
         return None
     if ta in (bool, int, str, bytes):
@@ -941,6 +962,8 @@ def feature_of(v):
                 f.append("memmap")
             if v.dtype.hasobject:
                 f.append("object-array")
+                if v.ndim:
+                    return "&".join(f)       # tokenized through join / pickle: layout is not the feature
             if v.ndim == 0:
                 f.append("0-d")
             elif any(s == 0 and n > 1 for s, n in zip(v.strides, v.shape)):
@@ -975,7 +998,7 @@ def feature_of(v):
 
     if t is types.FunctionType:
         return "lambda" if v.__name__ == "<lambda>" else "function"
-    if t in (set, frozenset, dict) and len({str(k) for k in v}) < len(v):
+    if t in (set, dict) and len({str(k) for k in v}) < len(v):
         return t.__name__ + "&" + ("keys" if t is dict else "elements") + "-with-equal-str"
     return t.__name__
 
@@ -1659,6 +1682,8 @@ def g_data1d(r, n, kinds=None):
     if k == "obj-mixed":
         return ["nd", {"dt": "|O", "shape": [n], "vals": [g_objelem(r) for _ in range(n)], "lay": None, "mm": False}]
     if k == "Int":
+        if r.random() < 0.2:       # integers that float64 cannot tell apart
+            return ["pdarray", {"dtype": r.choice(["Int64", "UInt64"]), "vals": [None if r.random() < 0.4 else 2 ** 53 + 2 * r.randint(0, 3) for _ in range(n)]}]
         return ["pdarray", {"dtype": r.choice(EXT_INT), "vals": [None if na() else r.randint(0, 4) for _ in range(n)]}]
     if k == "Float":
         return ["pdarray", {"dtype": r.choice(["Float64", "Float32"]), "vals": [None if na() else r.choice([0.0, 1.0, 2.0, 0.5, 3.0]) for _ in range(n)]}]
@@ -1741,6 +1766,9 @@ def mutate_data1d(d, r):
                 vals[i] = vals[i] + "x"
             else:
                 vals[i] = vals[i] + 1
+            return d, "diff"
+        if dt in EXT_INT and any(v is not None and v > 255 for v in vals):
+            p["dtype"] = "UInt64" if dt == "Int64" else "Int64"
             return d, "diff"
         if dt in EXT_INT:
             p["dtype"] = r.choice([x for x in EXT_INT + ["Float64"] if x != dt])
@@ -1843,9 +1871,14 @@ def mutate_index(d, r):
         if c < 0.35:
             d[4] = _other_name(d[4], r)
             return d, "diff"
-        if c < 0.7:
+        if c < 0.6:
             d[1] += 1
             d[2] += 1
+            return d, "diff"
+        if c < 0.7 and d[2] - d[1] >= 2 * d[3]:
+            n = len(range(d[1], d[2], d[3]))
+            d[3] += 1
+            d[2] = d[1] + n * d[3]          # same length, other step
             return d, "diff"
         vals = list(range(d[1], d[2], d[3]))
         return ["index", {"data": _nd1("<i8", vals), "name": d[4]}], "diff"     # RangeIndex vs Index: class
